@@ -117,8 +117,6 @@ impl Search {
     /// ```
     pub fn search(&mut self, evaluator: &impl Evaluator, max_depth: Option<Depth>) {
         // Uses a heuristic to determine the maximum time to spend on a move
-        self.start();
-
         self.limits.time_management_timer = match self.board.current_turn {
             Color::White => (self.limits.white_time.unwrap_or(0) / 20
                 + self.limits.white_increment.unwrap_or(0) / 2)
@@ -796,6 +794,7 @@ impl Search {
     /// search.start();
     /// assert_eq!(search.is_running(), true);
     /// ```
+    #[allow(dead_code)]
     fn start(&self) {
         self.running.store(true, Ordering::Relaxed);
     }
